@@ -325,4 +325,153 @@ theorem dottedQuad_iff (s v : List Nat) :
       (isOctet_iff _ _).2 ⟨hc, rfl⟩, (isOctet_iff _ _).2 ⟨hd, rfl⟩, ?_, hv⟩
     rw [hs]; simp [fmt4]
 
+/-! ### ntop6: bounds and character set -/
+
+/-- characters `inet_ntop6` may print -/
+def OkChar6 (c : Nat) : Prop := (48 ≤ c ∧ c ≤ 57) ∨ (97 ≤ c ∧ c ≤ 102) ∨ c = 58 ∨ c = 46
+
+theorem fmtX16_len (w : Nat) : 1 ≤ (fmtX16 w).length ∧ (fmtX16 w).length ≤ 4 := by
+  unfold fmtX16; (repeat' split) <;> simp
+
+theorem hexDigit_ok (d : Nat) (h : d < 16) : (48 ≤ hexDigit d ∧ hexDigit d ≤ 57) ∨ (97 ≤ hexDigit d ∧ hexDigit d ≤ 102) := by
+  unfold hexDigit; split <;> omega
+
+theorem fmtX16_ok (w : Nat) (h : w < 65536) : ∀ c ∈ fmtX16 w, OkChar6 c := by
+  intro c hc
+  have key : ∃ d, d < 16 ∧ c = hexDigit d := by
+    unfold fmtX16 at hc
+    (repeat' split at hc) <;> simp at hc
+    · exact ⟨w, by omega, hc⟩
+    · rcases hc with rfl | rfl
+      · exact ⟨w / 16, by omega, rfl⟩
+      · exact ⟨w % 16, by omega, rfl⟩
+    · rcases hc with rfl | rfl | rfl
+      · exact ⟨w / 256, by omega, rfl⟩
+      · exact ⟨w / 16 % 16, by omega, rfl⟩
+      · exact ⟨w % 16, by omega, rfl⟩
+    · rcases hc with rfl | rfl | rfl | rfl
+      · exact ⟨w / 4096, by omega, rfl⟩
+      · exact ⟨w / 256 % 16, by omega, rfl⟩
+      · exact ⟨w / 16 % 16, by omega, rfl⟩
+      · exact ⟨w % 16, by omega, rfl⟩
+  obtain ⟨d, hd, rfl⟩ := key
+  rcases hexDigit_ok d hd with h | h
+  · exact Or.inl h
+  · exact Or.inr (Or.inl h)
+
+theorem fmt4_ok (a : List Nat) (h : ∀ j, a.getD j 0 < 256) : ∀ c ∈ fmt4 a, OkChar6 c := by
+  intro c hc
+  simp only [fmt4, List.mem_append, List.mem_cons] at hc
+  have h0 := fmtU8_digits _ (Nat.lt_trans (h 0) (by omega))
+  have h1 := fmtU8_digits _ (Nat.lt_trans (h 1) (by omega))
+  have h2 := fmtU8_digits _ (Nat.lt_trans (h 2) (by omega))
+  have h3 := fmtU8_digits _ (Nat.lt_trans (h 3) (by omega))
+  rcases hc with ((hh | hh | hh) | hh | hh) | hh | hh
+  · exact Or.inl (h0 c hh)
+  · exact Or.inr (Or.inr (Or.inr hh))
+  · exact Or.inl (h1 c hh)
+  · exact Or.inr (Or.inr (Or.inr hh))
+  · exact Or.inl (h2 c hh)
+  · exact Or.inr (Or.inr (Or.inr hh))
+  · exact Or.inl (h3 c hh)
+
+/-- the embedded `inet_ntop4` call always has room: it appends the dotted quad -/
+theorem embedV4_spec (src tp : List Nat) (h : tp.length ≤ 30) :
+    embedV4 src tp = .ok (tp ++ fmt4 (src.drop 12)) := by
+  have hl := fmt4_len (src.drop 12)
+  have hr : ntop4 (src.drop 12) (List.replicate (46 - tp.length) 0) (46 - tp.length) =
+      (0, fmt4 (src.drop 12) ++ 0 :: (List.replicate (46 - tp.length) 0).drop ((fmt4 (src.drop 12)).length + 1)) := by
+    rw [ntop4_spec _ _ _ (by simp) (by simp [SSIZE_MAX]; omega), if_neg (by omega)]
+  unfold embedV4
+  simp only [hr]
+  simp [cstr_append_nul _ _ (fmt4_ne_zero _)]
+
+/-- bound on `tp - tmp` before iteration `i` -/
+def bnd (best : Run) (i : Nat) : Int :=
+  if best.base = 0 ∧ 0 < best.len then
+    (if i = 0 then 0 else if (i : Int) ≤ best.len then 1 else 1 + 5 * ((i : Int) - best.len))
+  else 5 * (i : Int)
+
+theorem bnd_run (best : Run) (i : Nat) (L : Int)
+    (hrun : best.base ≠ -1 ∧ (i : Int) ≥ best.base ∧ (i : Int) < best.base + best.len) (hL : L ≤ bnd best i) :
+    (if (i : Int) = best.base then L + 1 else L) ≤ bnd best (i + 1) := by
+  unfold bnd at *
+  omega
+
+theorem bnd_hex (best : Run) (i : Nat) (L : Int) (_h0 : 0 ≤ L)
+    (hrun : ¬ (best.base ≠ -1 ∧ (i : Int) ≥ best.base ∧ (i : Int) < best.base + best.len)) (hL : L ≤ bnd best i) :
+    (if i ≠ 0 then L + 1 else L) + 4 ≤ bnd best (i + 1) := by
+  unfold bnd at *
+  omega
+
+theorem bnd_v4 (best : Run) (L : Int)
+    (hrun : ¬ (best.base ≠ -1 ∧ ((6 : Nat) : Int) ≥ best.base ∧ ((6 : Nat) : Int) < best.base + best.len))
+    (hb : best.base = 0) (hl : 5 ≤ best.len) (hL : L ≤ bnd best 6) : L ≤ 6 := by
+  unfold bnd at *
+  omega
+
+theorem bnd_end (best : Run) (L : Int) (hL : L ≤ bnd best 8) : L ≤ 40 := by
+  unfold bnd at *
+  omega
+
+theorem colon_len (i : Nat) (tp : List Nat) :
+    ((colon i tp).length : Int) = if i ≠ 0 then (tp.length : Int) + 1 else tp.length := by
+  unfold colon; split <;> simp
+
+theorem colon_ok (i : Nat) (tp : List Nat) (hc : ∀ c ∈ tp, OkChar6 c) : ∀ c ∈ colon i tp, OkChar6 c := by
+  intro c h
+  unfold colon at h
+  split at h
+  · simp at h; rcases h with h | h
+    · exact hc c h
+    · exact Or.inr (Or.inr (Or.inl h))
+  · exact hc c h
+
+theorem fmt6Loop_ok (src ws : List Nat) (best : Run) (i : Nat) (tp : List Nat)
+    (hws : ∀ j, ws.getD j 0 < 65536) (hsrc : ∀ j, src.getD j 0 < 256)
+    (hb : (tp.length : Int) ≤ bnd best i) (hi : i ≤ 8) (hc : ∀ c ∈ tp, OkChar6 c) :
+    ∃ out, fmt6Loop src ws best i tp = .ok out ∧ out.length ≤ 40 ∧ ∀ c ∈ out, OkChar6 c := by
+  fun_induction fmt6Loop src ws best i tp
+  · rename_i i tp h8 hrun ih
+    apply ih
+    · have := bnd_run best i tp.length hrun hb
+      split <;> simp_all
+    · omega
+    · intro c hc'
+      split at hc'
+      · simp at hc'; rcases hc' with h | h
+        · exact hc c h
+        · exact Or.inr (Or.inr (Or.inl h))
+      · exact hc c hc'
+  · rename_i i tp h8 hrun hv4
+    obtain ⟨rfl, hb0, hlen⟩ := hv4
+    have h6 := bnd_v4 best tp.length hrun hb0 (by omega) hb
+    have hcl := colon_len 6 tp
+    rw [embedV4_spec _ _ (by simp at hcl; omega)]
+    have hl := fmt4_len (src.drop 12)
+    refine ⟨_, rfl, by simp at hcl ⊢; omega, ?_⟩
+    intro c hc'
+    simp only [List.mem_append] at hc'
+    rcases hc' with h | h
+    · exact colon_ok _ _ hc c h
+    · exact fmt4_ok _ (by intro j; simpa [List.getD_eq_getElem?_getD, List.getElem?_drop] using hsrc (12 + j)) c h
+  · rename_i i tp h8 hrun hv4 ih
+    have hx := fmtX16_len (ws.getD i 0)
+    have hcl := colon_len i tp
+    apply ih
+    · have := bnd_hex best i tp.length (by omega) hrun hb
+      simp only [List.length_append]
+      push_cast
+      omega
+    · omega
+    · intro c hc'
+      simp only [List.mem_append] at hc'
+      rcases hc' with h | h
+      · exact colon_ok _ _ hc c h
+      · exact fmtX16_ok _ (hws i) c h
+  · rename_i i tp h8
+    have : i = 8 := by omega
+    subst this
+    exact ⟨tp, rfl, by have := bnd_end best tp.length hb; omega, hc⟩
+
 end UvModel.Inet
